@@ -36,6 +36,8 @@ HAND = [
     # formal arguments with an empty default (the directive is kept and parsed again by the main parser)
     ("sv", "`define M(a=, b) a b\n`define N(x, y = ) x y\n`define O(p =\t, q=) p q\nmodule m; wire `N(w1,) ; endmodule\n"),
     ("sv", "`define E()\n`define F( )  body\n`define G(a,\n  b) a b\nmodule m; endmodule\n"),
+    ("sv", "class c; function new(int a); x = a; endfunction : new\nendclass\nmodule m(.*); wire w; endmodule : m\ninterface i(.*); endinterface : i\n"),
+    ("sv", "module m; initial begin x = a.b().c().d(); y = q.f(1).g(2).h(3).k; end endmodule\n"),
     # a byte order mark in front of the text: whether such text is accepted or not, an accepted tree covers it from offset 0
     ("sv", "\ufeffmodule m; endmodule\n"), ("lib", "\ufefflibrary l a.v;\n"), ("sv", "\ufeff// c\n`define W 1\nmodule m; wire [`W:0] w; endmodule\n"),
     # unquoted paths of a library map followed by a line break, a tab, CRLF instead of a blank
